@@ -83,6 +83,16 @@ def ev(o, env, fb=None, body=None):
         if isinstance(base, (bytes, str)) and isinstance(i, int) and 0 <= i < len(base):
             return base[i] if isinstance(base, bytes) else ord(base[i])
         raise Unknown(o)
+    # an Option / Result built on this very path (a spliced-in helper that returns `Some(v)` / `None`): its
+    # discriminant and its payload are known
+    if k == "discr" and o[1][0] == "agg":
+        v_ = o[1][1].rsplit("::", 1)[-1]
+        if v_ in ("None", "Ok"):
+            return 0
+        if v_ in ("Some", "Err"):
+            return 1
+    if k in ("some", "ok", "unwrap") and o[1][0] == "agg" and o[1][1].rsplit("::", 1)[-1] in ("Some", "Ok") and len(o[1][2]) == 1:
+        return ev(o[1][2][0], env, fb, body)
     if k == "call" and o[1].endswith("RangeInclusive::contains") and fb is not None:
         rng = promoted_range(fb, body, o[2][0])
         x = ev(o[2][1], env, fb, body)
